@@ -189,6 +189,12 @@ func (s *seekableDecryptingReader) loadSegment(j int64) error {
 
 	plaintext, err := s.cipher.Open(s.plaintext[:0], nonce, segment, nil)
 	if err != nil {
+		// Open decrypts into the buffer of the previously loaded segment and
+		// zeroes it when authentication fails: that segment is no longer
+		// buffered. Without this a later Read inside it (after a Seek back)
+		// would hand out the zeroed bytes without an error.
+		s.segIndex = -1
+		s.plaintext = s.plaintext[:0]
 		return fmt.Errorf("segment %d decryption failed: %w", j, err)
 	}
 	s.plaintext = plaintext
